@@ -1,4 +1,4 @@
-"""C19 -- pattern matching and restructuring (clauses R19.1-R19.10)."""
+"""C19 -- pattern matching and restructuring (clauses R19.1-R19.12)."""
 from __future__ import annotations
 
 import ast
@@ -21,6 +21,7 @@ EXPLANATION = (
     ' R19.9: the goal is re-indented relative to the START of the match region.'
     ' R19.10: a pattern is reduced to an expression node only when it is exactly one statement.'
 )
+EXPLANATION += ' R19.12: a function that remembers its answer under a key reads, in the computation of the remembered value, nothing of its parameters that the key does not contain (followed into the helpers it calls).'
 ASSUMPTIONS = ["node.region is exact (rests on C08)"]
 
 
@@ -140,6 +141,10 @@ def check(ctx, res) -> None:
     _paren_preserving_rule(ctx, res)
     _indent_anchor_rule(ctx, res)
     _single_expression_pattern_rule(ctx, res)
+    _no_textual_prefilter_rule(ctx, res)
+    from .common import memo_key_rule
+
+    memo_key_rule(ctx, res, "R19.12", ("rope.refactor.similarfinder", "rope.refactor.restructure", "rope.refactor.wildcards"))
 
 
 def _check_main(ctx, res) -> None:
@@ -493,3 +498,43 @@ def _single_expression_pattern_rule(ctx, res) -> None:
                 "with an expression statement is searched as that first expression alone -- non-instances are reported, regions cover one statement, and the "
                 "wildcards of the remaining statements stay unbound", function=f.qualname)
     res.floor("R19.10", "reductions of a pattern to an expression node", n, 1)
+
+
+def _no_textual_prefilter_rule(ctx, res) -> None:
+    """R19.11: matching is done on the syntax tree, so an instance need not SPELL the pattern: `elif` matches `else:` + `if`,
+    `'ab'` matches `"a" "b"`, comments differ.  In the per-resource loop of a restructuring no resource is skipped (and
+    nothing else is decided) on a containment test against the resource's text; only the result of the tree search counts."""
+    idx = ctx.idx
+    f = idx.need_func("rope.refactor.restructure.Restructure.get_changes")
+    from . import common
+
+    node = common.inlined(idx, f)
+    cfg = CFG(node)
+    texts = {t.id for x in walk_local(node) if isinstance(x, ast.Assign) and isinstance(x.value, ast.Call)
+             and (call_name(x.value) in ("read", "read_bytes") or (isinstance(x.value.func, ast.Attribute) and x.value.func.attr == "source_code"))
+             for t in x.targets if isinstance(t, ast.Name)}
+    texts |= {t.id for x in walk_local(node) if isinstance(x, ast.Assign) and isinstance(x.value, ast.Attribute) and x.value.attr == "source_code"
+              for t in x.targets if isinstance(t, ast.Name)}
+
+    def textual(t) -> bool:
+        for y in ast.walk(t):
+            if isinstance(y, ast.Compare) and len(y.ops) == 1 and isinstance(y.ops[0], (ast.In, ast.NotIn)):
+                r = y.comparators[0]
+                if (isinstance(r, ast.Name) and r.id in texts) or (isinstance(r, ast.Attribute) and r.attr == "source_code") \
+                        or (isinstance(r, ast.Call) and call_name(r) == "read"):
+                    return True
+        return False
+
+    loops = [l for l in walk_local(node) if isinstance(l, ast.For) and any(call_name(c) in ("get_pymodule", "_compute_changes") for c in calls_in(l))]
+    if not loops:
+        raise AnalysisError("anchor=Restructure.get_changes: per-resource loop not found")
+    bad = None
+    for nd in cfg.nodes:
+        if nd.kind == "test" and nd.ast is not None and textual(nd.ast) and any(
+                any(y is nd.ast for y in ast.walk(l)) or True for l in loops if any(y is nd.ast for y in ast.walk(l))):
+            bad = nd
+    res.add("R19.11", "Restructure.get_changes|tree-search-for-every-resource", bad is None, f"{f.unit.rel}:{(bad or cfg.entry).lineno if bad else loops[0].lineno}",
+            "no resource is skipped on a test against its text" if bad is None else
+            f"`{ast.unparse(bad.ast)}` decides on the TEXT of the resource whether it is searched at all: an instance that does not spell the pattern's words "
+            "(`else:` + `if` for `elif`, an implicitly concatenated string, different comments) is found by the tree matcher but its file is skipped, so "
+            "the restructuring silently leaves it unchanged", function=f.qualname)
